@@ -48,6 +48,24 @@ CHECKS.update({
                      "(all live objects), for every sector of every model incl. extreme ones, constructors, DMRG and evolution steps.",
                 technique="contract-based deductive verification (pyvc, z3) of the centre move; representation-invariant runtime contracts over bounded histories",
                 note=OTHER_NOTE),
+    "C01": dict(cat="exploration", ref="DESIGN §8 C01",
+                text="Runtime contracts on the MPO construction pipeline over bounded-exhaustive/seeded term tables and model mixes: exact formal-sum equality of "
+                     "the symbolic MPO, dense equality with an independent Kronecker sum minus offset for all three algorithms, QN-valid labels and charge, "
+                     "adjacent-site swaps equal permutation similarity. Nothing proved: the construction is NumPy/scipy.sparse index algebra outside the VC generator.",
+                technique="contracts (formal-sum invariant, dense postcondition) evaluated at run time on the real construction functions (bounded stand-in of the contract family)",
+                note=OTHER_NOTE),
+    "C02": dict(cat="other", ref="DESIGN §8 C02, App. A.8",
+                text="approximate_partition proved for all inputs (pyvc: consecutive covering slices incl. the floor-division fact) so the partition-based tree "
+                     "constructors keep every basis set once; TTNO construction checked by runtime contracts (independent tree contraction == dense sum == chain MPO, "
+                     "QN-valid, topology independence) over enumerated tree shapes, groupings, dummy placements and the named constructors.",
+                technique="contract-based deductive verification (pyvc, z3) of approximate_partition; runtime contracts as bounded stand-in for the construction",
+                note=OTHER_NOTE + " print_tree shim is part of the trusted base; complex operators are outside TTNO's documented domain."),
+    "C07": dict(cat="other", ref="DESIGN §8 C07",
+                text="Exact symbolic execution of the real expectation / expectations code decides, per enumerated shape and operator list, that the cached fast path, "
+                     "the one-by-one path and the dense sesquilinear form are the same polynomial (all tensor values, bra != ket); occupations, RDMs and entropies are "
+                     "runtime contracts against the dense vector. Two recorded findings (RDMs of complex states are conjugated).",
+                technique="contracts decided exactly by symbolic execution of the real code (polynomial identities) + runtime contracts as bounded stand-in",
+                note=OTHER_NOTE + " Shims of the symbolic runs are listed in evidence."),
     "C13": dict(cat="exploration", ref="DESIGN §8 C13",
                 text="Frame contracts (represented vector, total charge and label validity of every live object unchanged; in-place mutation of a derived result "
                      "does not leak) evaluated after every step of random operation histories incl. every evolution scheme; bounded, nothing proved.",
@@ -85,9 +103,10 @@ def main():
                   "baseline_off_cmd": "cd /repo && /venv/bin/python -m pytest -ra -q -p no:cacheprovider --timeout=900 --continue-on-collection-errors",
                   "source_commits": [], "add_only": True},
         "engines": [
-            {"name": "pyvc", "path": "vk/pyvc", "serves_properties": ["C03", "C04", "C05", "C06", "C20"], "kind_free_text": "AST -> verification conditions (loop invariants, call by contract) -> z3/cvc5"},
+            {"name": "pyvc", "path": "vk/pyvc", "serves_properties": ["C02", "C03", "C04", "C05", "C06", "C20"], "kind_free_text": "AST -> verification conditions (loop invariants, call by contract) -> z3/cvc5"},
             {"name": "exact-exec", "path": "vk/symx/exactexec.py", "serves_properties": ["C19"], "kind_free_text": "real source executed on exact rationals / z3 reals"},
-            {"name": "rtc", "path": "vk/rtc", "serves_properties": ["C03", "C04", "C05", "C06", "C13", "C20"], "kind_free_text": "runtime contracts on the real functions, bounded-exhaustive inputs (bounded stand-in, never counted as proved)"},
+            {"name": "symx", "path": "vk/symx", "serves_properties": ["C03", "C07"], "kind_free_text": "real NumPy-level code executed on exact symbolic polynomial scalars; identities decided by normal form"},
+            {"name": "rtc", "path": "vk/rtc", "serves_properties": ["C01", "C02", "C03", "C04", "C05", "C06", "C07", "C13", "C20"], "kind_free_text": "runtime contracts on the real functions, bounded-exhaustive inputs (bounded stand-in, never counted as proved)"},
         ],
         "checks": checks,
         "not_applicable": na,
